@@ -176,6 +176,66 @@ fn enclosing(shape: u8) {
     }
 }
 
+fn toks13() -> std::mem::ManuallyDrop<[Token; 13]> {
+    std::mem::ManuallyDrop::new([
+        Token::new(TokenType::Semic, 0..1), Token::new(TokenType::Semic, 1..2), Token::new(TokenType::Semic, 2..3),
+        Token::new(TokenType::Semic, 3..4), Token::new(TokenType::Semic, 4..5), Token::new(TokenType::Semic, 5..6),
+        Token::new(TokenType::Semic, 6..7), Token::new(TokenType::Semic, 7..8), Token::new(TokenType::Semic, 8..9),
+        Token::new(TokenType::Semic, 9..10), Token::new(TokenType::Semic, 10..11), Token::new(TokenType::Semic, 11..12),
+        Token::new(TokenType::Eof, 12..12),
+    ])
+}
+
+/// thorough: larger offsets (<= 3 each), longer calls (1..3), 12 tokens
+fn enclosing_t(shape: u8) {
+    let toks = toks13();
+    let (base, a, b, n): (usize, usize, usize, usize) = (kani::any(), kani::any(), kani::any(), kani::any());
+    kani::assume(base <= 3 && a <= 3 && b <= 3 && n >= 1 && n <= 3);
+    let s = base + a + b;
+    kani::assume(s + n <= 12);
+    let cursor: usize = kani::any();
+    kani::assume(cursor <= 13);
+    let inner = Box::new(Reference::new(Statement::Call(call(n)), b));
+    let stmt = match shape {
+        0 => Statement::If(IfStatement { condition: None, if_branch: Some(inner), else_branch: None, info: AstInfo::new(0..1) }),
+        1 => Statement::While(WhileStatement { condition: None, statement: Some(inner), info: AstInfo::new(0..1) }),
+        _ => Statement::If(IfStatement { condition: None, if_branch: None, else_branch: Some(inner), info: AstInfo::new(0..1) }),
+    };
+    let tree = std::mem::ManuallyDrop::new(Statement::Block(BlockStatement {
+        statements: vec![Reference::new(stmt, a)],
+        info: AstInfo::new(0..1),
+    }));
+    let inside = s <= cursor && cursor < s + n;
+    kani::cover!(inside && base == 3 && a == 3 && b == 3 && n == 3, "largest offsets and call length");
+    let got = find_call_stmt_in_stmt(&tree, &cursor, base, &toks[..]);
+    match got {
+        Some((c, off)) => {
+            assert!(inside, "C14 a call is reported although the cursor is not inside it");
+            assert!(off == s, "C14 accumulated Reference offset of the enclosing call is wrong");
+            assert!(c.info.range.len() == n);
+        }
+        None => assert!(!inside, "C14 the call containing the cursor is not found"),
+    }
+}
+
+#[kani::proof]
+#[kani::unwind(3)]
+fn c14_enclosing_call_if_t() {
+    enclosing_t(0)
+}
+
+#[kani::proof]
+#[kani::unwind(3)]
+fn c14_enclosing_call_while_t() {
+    enclosing_t(1)
+}
+
+#[kani::proof]
+#[kani::unwind(3)]
+fn c14_enclosing_call_else_t() {
+    enclosing_t(2)
+}
+
 #[kani::proof]
 #[kani::unwind(3)]
 fn c14_enclosing_call_if() {
